@@ -60,6 +60,8 @@ var (
 //     the 0xfffe length encoding) and the SM4-CCM vector of RFC 8998 A.2;
 //   - GCMNonceForJ0 produces nonces whose J0 is the requested block (stdlib AES-GCM
 //     agrees on the resulting ciphertext, whose counter wraps).
+//
+// The sparse-string functions of sparse.go have their own SelfTestSparse.
 func SelfTest() error {
 	selfOnce.Do(func() { selfErr = selfTest() })
 	return selfErr
